@@ -81,3 +81,14 @@ Theorem C04_no_tx_twice_names_refuted :
     ~ NoDup (chain_txs bl).
 Proof. exact no_tx_twice_names_refuted. Qed.
 Print Assumptions C04_no_tx_twice_names_refuted.
+
+From Verif Require Import Ledger.Resolve.
+(** signature check and executor agree on who an account name is: at every position of a block the executor
+    resolves names through the map committed before the block, the one the signature check reads the owner from
+    (a name created / re-pointed earlier in the SAME block does not change whom a later tx is executed as) *)
+Theorem C04_verify_and_exec_resolve_same : forall is_name cid_of tx_hash vm cfg bno s pre s1,
+  exec_txs is_name cid_of tx_hash vm cfg bno (begin_block s) pre = Some s1 ->
+  names0 s1 = names s /\
+  forall a, resolve is_name s1 a = (if is_name a then match names s !! a with Some (_, d) => d | None => 0%N end else a).
+Proof. exact verify_and_exec_resolve_same. Qed.
+Print Assumptions C04_verify_and_exec_resolve_same.
